@@ -96,6 +96,19 @@ func (t Token) tagString() string {
 	return buf.String()
 }
 
+// doctypeString returns the escaped form of a doctype Token's Data. The
+// tokenizer skips the white space that follows "<!DOCTYPE", so that a leading
+// white space byte in the data has to be written as a character reference.
+func doctypeString(s string) string {
+	if s != "" {
+		switch c := s[0]; c {
+		case ' ', '\n', '\t', '\f': // A '\r' is always escaped by EscapeString.
+			return "&#" + strconv.Itoa(int(c)) + ";" + EscapeString(s[1:])
+		}
+	}
+	return EscapeString(s)
+}
+
 // String returns a string representation of the Token.
 func (t Token) String() string {
 	switch t.Type {
@@ -112,7 +125,7 @@ func (t Token) String() string {
 	case CommentToken:
 		return "<!--" + escapeCommentString(t.Data) + "-->"
 	case DoctypeToken:
-		return "<!DOCTYPE " + EscapeString(t.Data) + ">"
+		return "<!DOCTYPE " + doctypeString(t.Data) + ">"
 	}
 	return "Invalid(" + strconv.Itoa(int(t.Type)) + ")"
 }
